@@ -95,6 +95,12 @@ func TestWorker(t *testing.T) {
 		if p == nil {
 			t.Fatalf("no generator for %s", spec.Property)
 		}
+		if b, err := json.Marshal(p); err == nil {
+			var rt Plan
+			if json.Unmarshal(b, &rt) == nil {
+				p = &rt
+			}
+		}
 		if spec.Progress != "" && n%16 == 0 {
 			os.WriteFile(spec.Progress, []byte(fmt.Sprintf("%d %x", i, p.Seed)), 0o644)
 		}
